@@ -22,8 +22,9 @@
 
 import random
 from collections import deque
-from typing import TYPE_CHECKING
+from typing import TYPE_CHECKING, Set
 
+from .._dns import DNSRecord
 from .._utils.time import current_time_millis, millis_to_seconds
 from .answers import (
     MULTICAST_DELAY_RANDOM_INTERVAL,
@@ -91,6 +92,15 @@ class MulticastOutgoingQueue:
         for pending in self.queue:
             for record in answers:
                 pending.answers.pop(record, None)
+
+    def async_remove_records(self, records: Set[DNSRecord]) -> None:
+        """Remove records that must no longer be sent from the outgoing queue."""
+        for pending in self.queue:
+            pending.answers = {
+                answer: additionals - records
+                for answer, additionals in pending.answers.items()
+                if answer not in records
+            }
 
     def async_ready(self) -> None:
         """Process anything in the queue that is ready."""
